@@ -1,5 +1,5 @@
 (* C10 — Building is deterministic, independent of entry order and read fragmentation *)
-From UV Require Import File.Builder Hamt.Build Hamt.SortProofs Dir.BuildProofs.
+From UV Require Import File.Builder Hamt.Build Hamt.SortProofs Dir.BuildProofs Hamt.TrieProofs Hamt.ShardDecode Hamt.Refine Hamt.Canon Base.Varint.
 From Coq Require Import Permutation.
 Local Open Scope N_scope.
 
@@ -26,3 +26,33 @@ Theorem C10_size_splitter_ignores_fragmentation : forall fuel k (frags frags' : 
   concat frags = concat frags' -> split_size fuel k (concat frags) = split_size fuel k (concat frags').
 Proof. intros fuel k frags frags' H. rewrite H. reflexivity. Qed.
 Print Assumptions C10_size_splitter_ignores_fragmentation.
+
+(* sharded directories: ANY two tries that satisfy the invariants shard.add maintains (buckets by hash slice,
+   bucket numbers below the fanout, sub-shards only where two entries collide) and hold the same entries
+   serialize to the same block and size — whatever the insertion order and whatever order the Go maps
+   (modelled as association lists in arbitrary order) are iterated in *)
+Theorem C10_sharded_serialization_is_canonical : forall size lg, permitted size lg ->
+  forall (H : bytes -> bytes) (t1 t2 : bnode) cs1 cs2 d,
+  t1 = BShard cs1 -> t2 = BShard cs2 ->
+  bwf lg d t1 -> bwf lg d t2 -> bok size H t1 -> bok size H t2 -> bmin t1 -> bmin t2 ->
+  NoDup (entries_of t1) -> Permutation (entries_of t1) (entries_of t2) ->
+  serialize_node size HashMurmur3 (pad_len size) t1 = serialize_node size HashMurmur3 (pad_len size) t2.
+Proof. exact ser_unique. Qed.
+Print Assumptions C10_sharded_serialization_is_canonical.
+
+Theorem C10_sharded_directory_order_independent : forall size lg, permitted size lg ->
+  forall H : bytes -> bytes, (forall k, wf_bytes (H k) = true) -> (forall k, length (H k) = 8%nat) ->
+  forall entries entries' r r',
+  Forall (entry_ok H) entries -> NoDup (map e_name entries) -> Permutation entries entries' ->
+  build_sharded size HashMurmur3 entries = Ok r -> build_sharded size HashMurmur3 entries' = Ok r' -> r = r'.
+Proof. exact build_sharded_order_independent. Qed.
+Print Assumptions C10_sharded_directory_order_independent.
+
+(* the auto-selecting builder: the choice (an order-independent size estimate) and either form *)
+Theorem C10_directory_order_independent :
+  forall H : bytes -> bytes, (forall k, wf_bytes (H k) = true) -> (forall k, length (H k) = 8%nat) ->
+  forall entries entries' r r',
+  Forall (entry_ok H) entries -> NoDup (map e_name entries) -> Permutation entries entries' ->
+  build_dir entries = Ok r -> build_dir entries' = Ok r' -> r = r'.
+Proof. exact build_dir_order_independent. Qed.
+Print Assumptions C10_directory_order_independent.
